@@ -33,3 +33,7 @@ package admin
 //@ modifies map(i.index), ghost(i.rows.$len), ghostall(list.Element.$owner)
 //@ ensures [C19] idxOK(i) && !has(i.index, id) && result == old(i.index[id])
 //@ ensures [C19] forall s string :: s != id ==> has(i.index, s) == old(has(i.index, s)) && i.index[s] == old(i.index[s])
+
+// ErrInvalidArgument builds a gRPC status error (always non-nil); it touches nothing of the broker (trusted).
+//@ func ErrInvalidArgument trusted
+//@ ensures result != nil
